@@ -9,7 +9,9 @@ use deserr::{deserialize, Deserr};
 
 pub type R = Rec<M_LOG>;
 
-const STRS: [&str; 6] = ["", "a", "\u{e9}", "\u{20ac}", "\u{1f600}", "ab"];
+const STRS: [&str; 6] = ["\u{e9}a", "a", "\u{e9}", "\u{20ac}", "\u{1f600}", "ab"];
+/// the String target also gets the empty string
+const STRS_E: [&str; 6] = ["", "a", "\u{e9}", "\u{20ac}", "\u{1f600}", "ab"];
 
 #[cfg(kani)]
 fn setup() -> Node {
@@ -41,7 +43,7 @@ const A_INTNEG: u16 = (1 << K_INT) | (1 << K_NEG);
 const A_NUM: u16 = (1 << K_INT) | (1 << K_NEG) | (1 << K_FLOAT);
 
 macro_rules! unsigned_harness {
-    ($name:ident, $t:ty, $nz:expr) => {
+    ($name:ident, $t:ty, $nz:expr, $dom:expr) => {
         #[cfg(kani)]
         #[kani::proof]
         #[kani::unwind(12)]
@@ -66,19 +68,20 @@ macro_rules! unsigned_harness {
                 }
             }
             kani::cover!(r.is_ok(), "ok");
-            kani::cover!(r.is_err() && n.kind == K_INT, "domain error");
+            kani::cover!(!$dom || (r.is_err() && n.kind == K_INT), "domain error");
             kani::cover!(r.is_err() && n.kind != K_INT, "kind error");
         }
     };
 }
 
 macro_rules! signed_harness {
-    ($name:ident, $t:ty, $nz:expr) => {
+    ($name:ident, $t:ty, $nz:expr, $dom:expr) => {
         #[cfg(kani)]
         #[kani::proof]
         #[kani::unwind(12)]
         #[kani::stub(alloc::fmt::format, fmt_stub)]
         pub fn $name() {
+            const DOMINT: bool = $nz || <$t as MaxC>::MAXU < (u64::MAX as u128);
             let n = setup();
             let r: Result<$t, R> = deserialize::<$t, SV, R>(SV(0));
             post_c01(&r);
@@ -107,11 +110,18 @@ macro_rules! signed_harness {
             }
             kani::cover!(r.is_ok() && n.kind == K_NEG, "ok negative");
             kani::cover!(r.is_ok() && n.kind == K_INT, "ok positive");
-            kani::cover!(r.is_err() && n.kind == K_NEG, "domain error");
+            kani::cover!(!$dom || (r.is_err() && n.kind == K_NEG), "domain error (too small)");
+            kani::cover!(!DOMINT || (r.is_err() && n.kind == K_INT), "domain error (too large or zero)");
             kani::cover!(r.is_err() && n.kind > K_NEG, "kind error");
         }
     };
 }
+
+pub trait MaxC {
+    const MAXU: u128;
+}
+macro_rules! maxc { ($($t:ty => $p:ty),*) => { $(impl MaxC for $t { const MAXU: u128 = <$p>::MAX as u128; })* } }
+maxc!(i8 => i8, i16 => i16, i32 => i32, i64 => i64, i128 => i128, isize => isize, NonZeroI8 => i8, NonZeroI16 => i16, NonZeroI32 => i32, NonZeroI64 => i64, NonZeroI128 => i128, NonZeroIsize => isize);
 
 /// uniform access to the numeric value of plain and NonZero integers
 pub trait Get {
@@ -124,30 +134,30 @@ get_plain!(u8, u16, u32, u64, u128, usize, i8, i16, i32, i64, i128, isize);
 get_nz!(NonZeroU8 => u8, NonZeroU16 => u16, NonZeroU32 => u32, NonZeroU64 => u64, NonZeroU128 => u128, NonZeroUsize => usize,
         NonZeroI8 => i8, NonZeroI16 => i16, NonZeroI32 => i32, NonZeroI64 => i64, NonZeroI128 => i128, NonZeroIsize => isize);
 
-unsigned_harness!(c05_q_u8, u8, false);
-unsigned_harness!(c05_q_u16, u16, false);
-unsigned_harness!(c05_q_u32, u32, false);
-unsigned_harness!(c05_q_u64, u64, false);
-unsigned_harness!(c05_q_u128, u128, false);
-unsigned_harness!(c05_q_usize, usize, false);
-unsigned_harness!(c05_q_nzu8, NonZeroU8, true);
-unsigned_harness!(c05_q_nzu16, NonZeroU16, true);
-unsigned_harness!(c05_q_nzu32, NonZeroU32, true);
-unsigned_harness!(c05_q_nzu64, NonZeroU64, true);
-unsigned_harness!(c05_q_nzu128, NonZeroU128, true);
-unsigned_harness!(c05_q_nzusize, NonZeroUsize, true);
-signed_harness!(c05_q_i8, i8, false);
-signed_harness!(c05_q_i16, i16, false);
-signed_harness!(c05_q_i32, i32, false);
-signed_harness!(c05_q_i64, i64, false);
-signed_harness!(c05_q_i128, i128, false);
-signed_harness!(c05_q_isize, isize, false);
-signed_harness!(c05_q_nzi8, NonZeroI8, true);
-signed_harness!(c05_q_nzi16, NonZeroI16, true);
-signed_harness!(c05_q_nzi32, NonZeroI32, true);
-signed_harness!(c05_q_nzi64, NonZeroI64, true);
-signed_harness!(c05_q_nzi128, NonZeroI128, true);
-signed_harness!(c05_q_nzisize, NonZeroIsize, true);
+unsigned_harness!(c05_q_u8, u8, false, true);
+unsigned_harness!(c05_q_u16, u16, false, true);
+unsigned_harness!(c05_q_u32, u32, false, true);
+unsigned_harness!(c05_q_u64, u64, false, false);
+unsigned_harness!(c05_q_u128, u128, false, false);
+unsigned_harness!(c05_q_usize, usize, false, false);
+unsigned_harness!(c05_q_nzu8, NonZeroU8, true, true);
+unsigned_harness!(c05_q_nzu16, NonZeroU16, true, true);
+unsigned_harness!(c05_q_nzu32, NonZeroU32, true, true);
+unsigned_harness!(c05_q_nzu64, NonZeroU64, true, true);
+unsigned_harness!(c05_q_nzu128, NonZeroU128, true, true);
+unsigned_harness!(c05_q_nzusize, NonZeroUsize, true, true);
+signed_harness!(c05_q_i8, i8, false, true);
+signed_harness!(c05_q_i16, i16, false, true);
+signed_harness!(c05_q_i32, i32, false, true);
+signed_harness!(c05_q_i64, i64, false, false);
+signed_harness!(c05_q_i128, i128, false, false);
+signed_harness!(c05_q_isize, isize, false, false);
+signed_harness!(c05_q_nzi8, NonZeroI8, true, true);
+signed_harness!(c05_q_nzi16, NonZeroI16, true, true);
+signed_harness!(c05_q_nzi32, NonZeroI32, true, true);
+signed_harness!(c05_q_nzi64, NonZeroI64, true, true);
+signed_harness!(c05_q_nzi128, NonZeroI128, true, true);
+signed_harness!(c05_q_nzisize, NonZeroIsize, true, true);
 
 macro_rules! float_harness {
     ($name:ident, $t:ty) => {
@@ -229,13 +239,17 @@ pub fn c05_q_unit() {
 #[kani::unwind(12)]
 #[kani::stub(alloc::fmt::format, fmt_stub)]
 pub fn c05_q_string() {
-    let n = setup();
+    set_tab(&STRS_E);
+    reset();
+    set_script(any_script());
+    let n = any_leaf(6);
+    set_node(0, n);
     let r: Result<String, R> = deserialize::<String, SV, R>(SV(0));
     post_c01(&r);
     match &r {
         Ok(v) => {
             assert!(n.kind == K_STR, "C05: String accepted a non-string");
-            assert!(ident(v) == n.s && v.len() == STRS[n.s as usize].len(), "C05: String result differs from the input");
+            assert!(ident(v) == n.s && v.len() == STRS_E[n.s as usize].len(), "C05: String result differs from the input");
         }
         Err(_) => {
             assert!(n.kind != K_STR, "C05: String rejected a string");
@@ -251,6 +265,7 @@ pub fn c05_q_string() {
 #[kani::proof]
 #[kani::unwind(12)]
 #[kani::stub(alloc::fmt::format, fmt_stub)]
+#[kani::stub(core::str::count::count_chars, crate::stubs::count_chars_stub)]
 pub fn c05_q_char() {
     let n = setup();
     let r: Result<char, R> = deserialize::<char, SV, R>(SV(0));
@@ -277,7 +292,26 @@ pub fn c05_q_char() {
         }
     }
     kani::cover!(r.is_ok() && n.s == 4, "ok 4-byte char");
-    kani::cover!(r.is_err() && n.kind == K_STR && n.s == 0, "empty string");
+    kani::cover!(r.is_err() && n.kind == K_STR && n.s == 0, "two characters, the first one multi-byte");
     kani::cover!(r.is_err() && n.kind == K_STR && n.s == 5, "two characters");
     kani::cover!(r.is_err() && n.kind != K_STR, "kind error");
+}
+
+
+/// The empty string for `char`, given directly as a view (CBMC reports a spurious
+/// deallocation failure when an empty String that went through the harness' string
+/// table is dropped inside deserr - see DESIGN.md; the direct view does not trigger it).
+#[cfg(kani)]
+#[kani::proof]
+#[kani::unwind(12)]
+#[kani::stub(alloc::fmt::format, fmt_stub)]
+pub fn c05_q_char_empty() {
+    reset();
+    set_script(any_script());
+    let v: deserr::Value<SV> = deserr::Value::String(String::new());
+    let r = <char as Deserr<R>>::deserialize_from_value::<SV>(v, deserr::ValuePointerRef::Origin);
+    post_c01(&r);
+    assert!(r.is_err(), "C05: char accepted the empty string");
+    one_report(R_UNEXP);
+    kani::cover!(r.is_err(), "reached");
 }
